@@ -414,7 +414,8 @@ def run_scenarios(c, name, scenarios, samples, extra_stats=None):
 def add_c01_suites(c, samples):
     rng = c.rng
     n = 12 if c.tier == "quick" else 150
-    scs = corpus(rng, ["broken-recipient", "alternating-hosts"])
+    scs = corpus(rng, ["broken-recipient", "alternating-hosts", "slow-qos2", "retransmit-then-next", "fanout-unacked-retransmit"])
+    scs += [gen_retransmit(rng, rng.choice([1, 2])) for _ in range(4 if c.tier == "quick" else 60)]
     scs += [gen_broken_recipient_qos(rng) for _ in range(10 if c.tier == "quick" else 100)]
     scs += [gen_converged(rng, rng.choice([1, 1, 2]), 1, rng.choice([12, 20]), {"pub": 8, "sub": 5, "unsub": 2}) for _ in range(n)]
     run_scenarios(c, "broker-publish-routing", scs, samples)
@@ -994,6 +995,25 @@ def gen_reallog_stalled_recipient(rng):
     return sc
 
 
+def gen_reallog_stalled_far_behind(rng):
+    """the same with a backlog of several log segments (2600 messages, segments of 500) building up behind the stalled
+    recipient: whatever the log does to bound its size, nothing that was not handed over may go"""
+    sc = Scenario(rng, 1, 1, real_log=True)
+    p = sc.connect(node=0)
+    slow = sc.connect(node=0)
+    fast = sc.connect(node=0)
+    sc.sub(slow, [("a/#", 0)])
+    sc.sub(fast, [("a/b", 0)])
+    sc.burst(p, "a/b", 1, 0, 3)
+    sc.ops.append("longsettle 1")
+    sc.ops.append(f"stall {slow} {rng.choice([1200, 1500])}")
+    sc.burst(p, "a/b", 0, 3, 2600)
+    sc.ops.append("longsettle 0")
+    sc.burst(p, "a/b", 1, 3000, 5)
+    sc.check_state()
+    return sc
+
+
 def add_refused_connect_suite(c, samples):
     """CONNECT packets the broker refuses AFTER authentication, because an identifier cannot be replicated (client id or
     user name — the harness' mount point — that is not valid UTF-8: the session record cannot be encoded): nothing of the
@@ -1041,7 +1061,7 @@ def add_refused_connect_suite(c, samples):
 
 def add_reallog_suites(c, samples):
     # the first messages a node ever stores, and a history that crosses the first truncation point
-    scs = [gen_reallog(c.rng, 3), gen_reallog_stalled_recipient(c.rng), gen_reallog(c.rng, 2300), gen_reallog_backlog(c.rng)]
+    scs = [gen_reallog(c.rng, 3), gen_reallog_stalled_recipient(c.rng), gen_reallog_stalled_far_behind(c.rng), gen_reallog(c.rng, 2300), gen_reallog_backlog(c.rng)]
     if c.tier != "quick":
         scs += [gen_reallog(c.rng, 520, nn=2), gen_reallog(c.rng, 4300), gen_reallog(c.rng, 3200, nn=2)]
     run_scenarios(c, "real-commit-log-long-history", scs, samples)
@@ -1875,9 +1895,69 @@ def corpus_returning_client_will(rng):
     return sc
 
 
+def corpus_qos2_handshakes_with_large_ids(rng):
+    """two inbound QoS 2 handshakes open at once under client-chosen identifiers from the whole 16-bit range (the
+    extremes 1 and 65535, and pairs from 55296..57343 — code points a string conversion would merge): each PUBREL
+    releases its own message, once"""
+    sc = Scenario(rng, 1, 1)
+    p = sc.connect(node=0)
+    s_ = sc.connect(node=0)
+    sc.sub(s_, [("t/#", 0)])
+    for a, b in ((55300, 55296), (57343, 56000), (65535, 1), (32768, 32767)):
+        sc.emit(f"pub {p} t/a {a % 251:02x} 2 0 0 {a}", {p: [f"pubrec({a})"]}, "qos2-forwarded-early")
+        sc.emit(f"pub {p} t/b {b % 251:02x} 2 0 0 {b}", {p: [f"pubrec({b})"]}, "qos2-forwarded-early")
+        sc.emit(f"rawack {p} pubrel {a}", {p: [f"pubcomp({a})"], s_: [pubstr("t/a", f"{a % 251:02x}", 0, 0, 0)]}, "delivery")
+        sc.emit(f"rawack {p} pubrel {a}", {}, "qos2-forwarded-twice")
+        sc.emit(f"rawack {p} pubrel {b}", {p: [f"pubcomp({b})"], s_: [pubstr("t/b", f"{b % 251:02x}", 0, 0, 0)]}, "delivery")
+    sc.emit("expire 0", {}, "unexpected-packets")
+    sc.ops.append("pool 0")
+    return sc
+
+
+def corpus_publish_workers_survive_failures(rng):
+    """more failed distributions than there are publish workers (20), then the failure goes away: publishes are served
+    again, and so is the will of a session that is lost"""
+    sc = Scenario(rng, 1, 1)
+    w = sc.connect(node=0)
+    sc.sub(w, [("#", 0)])
+    p = sc.connect(node=0)
+    v = sc.connect(node=0, will=("w/v", "76", 0, 0))
+    sc.ops.append("logfail 0 all")
+    for k in range(24):
+        sc.mid += 1
+        sc.emit(f"pub {p} t {k:02x} 1 0 0 {sc.mid}", {}, "ack-despite-failed-write")
+    sc.ops.append("logfail 0 none")
+    sc.pub(p, "t", "aa", 1)
+    sc.end(v, "drop")
+    sc.pub(p, "t", "bb", 0)
+    sc.check_state()
+    return sc
+
+
+def corpus_same_client_id_other_tenant_will(rng):
+    """two tenants use the same client identifier, both connected; one of them is lost: its will is published (the other
+    tenant's session is nobody's reconnection), inside its own tenant only"""
+    sc = Scenario(rng, rng.choice([1, 2]), 2)
+    m1, m2 = sc.mounts
+    w1 = sc.connect(node=0, mount=m1)
+    sc.sub(w1, [("#", 0)])
+    w2 = sc.connect(node=0, mount=m2)
+    sc.sub(w2, [("#", 0)])
+    a = sc.connect(node=sc.nn - 1, mount=m1, cid="shared", will=("w/a", "61", 0, 0))
+    b = sc.connect(node=0, mount=m2, cid="shared", will=("w/b", "62", 0, 0))
+    sc.end(a, "drop")
+    sc.emit(f"ping {b}", {b: ["pingresp"]}, "other-tenant-disturbed")
+    sc.end(b, "drop")
+    sc.check_state()
+    return sc
+
+
 def corpus(rng, names):
     table = {"displacer-gone-before-ping": corpus_displacer_gone_before_ping,
              "returning-client-will": corpus_returning_client_will,
+             "qos2-large-ids": corpus_qos2_handshakes_with_large_ids,
+             "publish-workers-survive-failures": corpus_publish_workers_survive_failures,
+             "same-client-id-other-tenant-will": corpus_same_client_id_other_tenant_will,
              "alternating-hosts": corpus_alternating_hosts, "retransmit-then-next": corpus_retransmit_then_next,
              "fanout-unacked-retransmit": corpus_fanout_unacked_retransmit,
              "topic-starts-with-mount-name": corpus_topic_starts_with_mount_name,
